@@ -32,6 +32,14 @@ def garbage(shape, dtype, fill):
     return a
 
 
+def poison(byte):
+    """fill recently freed heap blocks of many sizes with a byte pattern: output buffers a callee allocates with
+    np.empty (gufunc outputs behind the accessors) then start from DIFFERENT junk in the two runs, so a cell the
+    kernel never writes shows as a difference between repeated calls"""
+    blocks = [np.full(sz, byte, dtype="uint8") for sz in (8, 16, 24, 32, 48, 64, 96, 128, 192, 256, 384, 512, 1024, 2048, 4096, 16384, 65536) for _ in range(6)]
+    del blocks
+
+
 def cases(seed, tier):
     from hdc.algo import ops
     from hdc.algo.ops import stats, zonal
@@ -182,7 +190,9 @@ def main():
     for kernel, label, incontract, fn, outs in cases(seed, tier):
         ev = {"kernel": kernel, "label": label, "incontract": incontract, "outcome": "ok", "digest1": "", "digest2": ""}
         try:
+            poison(0x4D)
             r1 = fn([garbage(s, d, 77) for s, d in outs])
+            poison(0xD3)
             r2 = fn([garbage(s, d, 13) for s, d in outs])
             ev["digest1"], ev["digest2"] = dig(r1), dig(r2)
         except IndexError:
